@@ -166,6 +166,11 @@ func runC09(c *Ctx) {
 				continue
 			}
 			switch f[0] {
+			case "SKIP":
+				// a job that cannot be loaded is not run: for the flows written for this check that is a defect of the check itself
+				if strings.HasPrefix(f[1], "synthetic-") {
+					c.Fail("monitor", "harness", "synthetic-job-skipped", "a synthetic job of the race driver could not be loaded: "+line, map[string]any{"line": line})
+				}
 			case "SAME", "DIFF":
 				c.Count("check:M-same-as-alone")
 				c.Eval(fmt.Sprintf("worker|%s|%s|%s", f[1], f[2], f[0]))
